@@ -215,6 +215,56 @@ func runC13(c *core.Ctx) {
 		}
 	})
 
+	// arbitrary hash codes through a custom Hasher: the partitioner arithmetic must agree with the reference
+	// formulas for every 32-bit hash value, in particular around the sign boundary
+	c.Cases("hashcode", c.N(600, 40000), func(k *core.Case) {
+		r := k.R
+		boundary := []uint32{0, 1, 2, 0x7ffffffe, 0x7fffffff, 0x80000000, 0x80000001, 0x80000002, 0xfffffffe, 0xffffffff, 0x55555555, 0xaaaaaaaa}
+		var h uint32
+		if k.Idx < 4*len(boundary) {
+			h = boundary[k.Idx%len(boundary)]
+		} else if r.Chance(1, 3) {
+			h = boundary[r.Intn(len(boundary))] + uint32(r.Intn(5)) - 2
+		} else {
+			h = uint32(r.Uint64())
+		}
+		k.Describe(map[string]any{"hash_code": fmt.Sprintf("%#x", h)})
+		msg := kafka.Message{Key: []byte("k")}
+		for _, n := range c13Counts {
+			parts := lists[n]
+			sar := int32(h) % int32(n)
+			if sar < 0 {
+				sar = -sar
+			}
+			ref := (int32(h) & 0x7fffffff) % int32(n)
+			for _, t := range []struct {
+				name string
+				got  int
+				want int
+			}{
+				{"Hash{custom}", (&kafka.Hash{Hasher: stubHash32(h)}).Balance(msg, parts...), int(sar)},
+				{"ReferenceHash{custom}", (&kafka.ReferenceHash{Hasher: stubHash32(h)}).Balance(msg, parts...), int(ref)},
+			} {
+				c.Eval(1)
+				if !inOffered(t.got, n) {
+					k.Viol("c13:not-offered:"+t.name, fmt.Sprintf("%s returned %d for hash code %#x, not among the %d offered partitions", t.name, t.got, h, n), nil)
+				} else if t.got != t.want {
+					k.Viol("c13:hash-mismatch:"+t.name, fmt.Sprintf("%s with hash code %#x over %d partitions returned %d, reference partitioner gives %d", t.name, h, n, t.got, t.want), nil)
+				}
+			}
+			cls := "mid"
+			switch {
+			case h == 0x80000000:
+				cls = "minint32"
+			case h >= 0x80000000:
+				cls = "negative"
+			case h == 0:
+				cls = "zero"
+			}
+			c.Distinct(fmt.Sprintf("hashcode %s n=%s", cls, nClass(n)))
+		}
+	})
+
 	// sequential laws
 	c.Cases("seq", c.N(400, 12000), func(k *core.Case) {
 		r := k.R
@@ -435,3 +485,13 @@ func fmtOps(ops []porcupine.Operation) []string {
 	}
 	return out
 }
+
+// stubHash32 is a hash.Hash32 whose Sum32 is a constant.
+type stubHash32 uint32
+
+func (s stubHash32) Write(p []byte) (int, error) { return len(p), nil }
+func (s stubHash32) Sum(b []byte) []byte         { return b }
+func (s stubHash32) Reset()                      {}
+func (s stubHash32) Size() int                   { return 4 }
+func (s stubHash32) BlockSize() int              { return 1 }
+func (s stubHash32) Sum32() uint32               { return uint32(s) }
